@@ -4,7 +4,7 @@
    They are the lemmas the refinement  Impl [= Stream  is built from; the receiver-level statement
    is in the section "receiver" below as far as it is proved. *)
 From Via Require Import M_Char M_Parse M_Receive P_Parse.
-From Via Require Import P_Frag.
+From Via Require Import P_Frag P_Term.
 Local Open Scope N_scope.
 
 Theorem C01_request_line_fragments : forall L a r b, rl_valid r = false ->
@@ -111,7 +111,7 @@ Qed.
 
 (* non-vacuity: a request cut inside a folded header line; both runs deliver the same single request *)
 Example C01_example_cut_mid_message :
-  let cfg := mk_rcfg (mk_limits 8190 8 100 65534 1024 8 65534 65534 false) 1048576 1048576 true true in
+  let cfg := mk_rcfg (mk_limits 8190 8 100 65534 1024 8 65534 65534 false) 1048576 1048576 true true false in
   let a := [71;69;84;32;47;32;72;84;84;80;47;49;46;49;13;10;72;111;115;116;58;32;104;13;10;88;58;32;97;13;10] in
   let b := [32;98;13;10;13;10] in
   let '(v1, e1, c1, o1) := read_loop cfg (rv_init cfg) a in
@@ -150,7 +150,7 @@ Qed.
 (* non-vacuity: a POST with a body cut into four reads (inside the request line, inside a folded header, exactly
    behind the head, inside the body) satisfies the premise, and the four reads deliver the one request *)
 Example C01_example_cuts_ok :
-  let cfg := mk_rcfg (mk_limits 8190 8 100 65534 1024 8 65534 65534 false) 1048576 1048576 true true in
+  let cfg := mk_rcfg (mk_limits 8190 8 100 65534 1024 8 65534 65534 false) 1048576 1048576 true true false in
   let frags := [[80;79;83;84;32;47];
                 [32;72;84;84;80;47;49;46;49;13;10;72;111;115;116;58;32;104;13;10;88;58;32;97;13;10];
                 [32;98;13;10;67;111;110;116;101;110;116;45;76;101;110;103;116;104;58;32;51;13;10;13;10];
@@ -171,6 +171,18 @@ Proof.
   end.
 Qed.
 
+(* the same without any mention of fuel: the read loop is proved to terminate (P_Term.v), so the statement is about
+   read_loop itself, the loop http_server::receive_handler runs.  cuts_fine is cuts_ok without the "not out of fuel"
+   clause: no cut directly behind an interim EXPECT_CONTINUE, no rejection before the last read, every request framed *)
+Theorem C01_fragmentation_invariance_of_the_read_loop : forall cfg frags, cuts_fine cfg (rv_init cfg) frags ->
+  exists c,
+    read_loop cfg (rv_init cfg) (concat frags) =
+    (fst (fst (fst (feed cfg (rv_init cfg) frags))), snd (fst (fst (feed cfg (rv_init cfg) frags))), c, false).
+Proof.
+  intros cfg frags H. apply feed_is_one_read; [exact (rv_ok_init cfg) | | exact (rv_inv3_init cfg) | exact H].
+  unfold rv_inv2. cbn. discriminate.
+Qed.
+
 (* the premises are met: the invariant holds initially *)
 Example C01_example_invariant : forall cfg, rv_ok (rv_init cfg).
 Proof. exact rv_ok_init. Qed.
@@ -181,6 +193,7 @@ Print Assumptions C01_chunk_line_fragments.
 Print Assumptions C01_cut_mid_message.
 Print Assumptions C01_cut_anywhere.
 Print Assumptions C01_fragmentation_invariance.
+Print Assumptions C01_fragmentation_invariance_of_the_read_loop.
 Print Assumptions C01_header_block_fragments.
 Print Assumptions C01_request_head_fragments.
 Print Assumptions C01_chunk_fragments.
